@@ -37,6 +37,13 @@ func genC16(rt *rapid.T) *Program {
 			p.Keep = 1
 		}
 	}
+	if (p.Spec.Kind == "map" || p.Spec.Kind == "cache") && p.Mode == "" && p.Spec.Presize <= 96 && irange(rt, 0, 3, "topHashCollision") == 0 {
+		p.Collide = true // k0 and k2 share bucket and top hash (R often looks up k2 while W holds k0's bucket)
+		if p.Fill > 40 {
+			p.Fill = irange(rt, 0, 30, "smallFill")
+			p.Keep = p.Fill
+		}
+	}
 	// hot keys: k0 is W's key; k1,k2 are stable (W never touches them)
 	present := make([]bool, p.Hot)
 	for k := 0; k < p.Hot; k++ {
